@@ -83,6 +83,14 @@ def configs(tier, seed):
     for b in ('shelf', 'disk', 'redis', 'cloud', 'dict'):
         cfgs.append(dict(backend=b, backoff='r10', n=1, script=[E0, ['restart']], d=d, dd=2, menu=MENU))
         cfgs.append(dict(backend=b, backoff='r10-20', n=1, script=[E0, ['restart'], ['restart']], d=d - 1, dd=2, menu=MENU))
+    # a stored message damaged by an earlier crash (envelope file without meta file) must not hide the others from the start-up load
+    for k in (0, 1):
+        cfgs.append(dict(backend='disk', backoff='r10', n=1, messages=0, prestored=3, prestored_due=0.0, damage_meta=k, d=1, dd=1, menu=MENU))
+    # the same id dispatched twice while a storage answer is late (copies handed out by shelve / disk)
+    for b in ('shelf', 'disk'):
+        cfgs.append(dict(backend=b, backoff='r10', n=1, harness_wait=True, slow_ops=['get-late'], script=[E0, ['announce', 0]], d=3, dd=1, menu=MENU))
+        cfgs.append(dict(backend=b, backoff='r10', n=1, messages=0, prestored=1, harness_wait=True, slow_ops=['get-late'],
+                         script=[['announce', 0], ['announce', 0]], d=3, dd=1, menu=MENU))
     # enqueue() blocked on a saturated relay pool while the storage announces the new message
     cfgs.append(dict(backend='dict', backoff='r10', n=1, harness_wait=True, relay_pool=1, script=[E0, E1, ['announce', 1], ['announce', 0]], d=d, dd=2, menu=MENU))
     cfgs.append(dict(backend='redis', backoff='r10', n=1, relay_pool=1, script=[E0, E1], d=d, dd=2, menu=MENU))
